@@ -1,6 +1,8 @@
 #!/usr/bin/env python3
 # Generates /verif/MANIFEST.json from /verif/manifest.src.json (per-property texts) so that the commands stay uniform.
-import json
+import json, subprocess
+hooks = subprocess.run(["git", "-C", "/repo", "log", "--format=%H %s"], capture_output=True, text=True).stdout.splitlines()
+hook_commits = [l.split()[0] for l in hooks if " ".join(l.split()[1:]).startswith("verif hook")]
 src = json.load(open('/verif/manifest.src.json'))
 checks = []
 for pid in sorted(src['claimed']):
@@ -27,7 +29,7 @@ m = {
         "guard": "verif",
         "enable": "go build tag 'verif' (go/packages BuildFlags -tags=verif); it only adds comment-only files zz_contracts_verif.go holding the //@ contracts — no executable code",
         "baseline_off_cmd": "cd /repo && GOFLAGS=-mod=mod GOPROXY=off go test -vet=off -count=1 -timeout 25m ./...",
-        "source_commits": src.get("hook_commits", []),
+        "source_commits": hook_commits,
         "add_only": True,
     },
     "engines": [{"name": "govc", "path": "/verif/govc", "serves_properties": sorted(src['claimed']),
